@@ -146,7 +146,9 @@ def gen_probe(rng: random.Random) -> dict[str, Any]:
     mapping = rng.choice(["low", "low", "high", "any", "any"])
     feats = {x for x in progen.ALL_FEATURES if rng.random() < 0.45}
     feats |= {"data"}
-    feats -= {"far_banks", "map", "table"}
+    feats -= {"far_banks", "table"}
+    if mapping != "low" or rng.random() < 0.75:
+        feats.discard("map")  # a quarter of the low probes install their own mapping (without optional attributes)
     if mapping == "any":
         feats |= {"branches"}
     defines: list[tuple[str, str]] = []
